@@ -72,11 +72,11 @@ theorem stepH_cases (w : World) (h : Nat) (st : St) (P : Step → Prop)
           | true => exact h3 hquit hnew
 
 /-- state at a block fetch that is not attempted (quit) -/
-def stLostQ (st : St) (new : List Req) : St := { st with lost := st.lost ++ new }
+def stFailQ (h : Nat) (st : St) (new : List Req) : St := { st with out := st.out ++ failNew new .shutdown h }
 
 /-- state at a failed block fetch -/
-def stLostB (h : Nat) (st : St) (new : List Req) : St :=
-  { st with lost := st.lost ++ new, log := st.log ++ [Ev.block h false] }
+def stFailB (h : Nat) (st : St) (new : List Req) : St :=
+  { st with out := st.out ++ failNew new .blockFail h, log := st.log ++ [Ev.block h false] }
 
 /-- state after a fetched block was processed -/
 def stFetched (w : World) (h : Nat) (st : St) (new : List Req) : St :=
@@ -86,13 +86,13 @@ def stFetched (w : World) (h : Nat) (st : St) (new : List Req) : St :=
 
 theorem fetchStep_eq (w : World) (h : Nat) (st : St) (new : List Req) :
     fetchStep w h st new =
-      if st.quit then .fail ((stLostQ st new).fail .shutdown h)
-      else if w.blockErr st.k then .fail ((stLostB h st new).fail .blockFail h)
+      if st.quit then .fail ((stFailQ h st new).fail .shutdown h)
+      else if w.blockErr st.k then .fail ((stFailB h st new).fail .blockFail h)
       else .cont (stFetched w h st new) := rfl
 
 theorem fetchStep_cases (w : World) (h : Nat) (st : St) (new : List Req) (P : Step → Prop)
-    (hq : st.quit = true → P (.fail ((stLostQ st new).fail .shutdown h)))
-    (hb : st.quit = false → w.blockErr st.k = true → P (.fail ((stLostB h st new).fail .blockFail h)))
+    (hq : st.quit = true → P (.fail ((stFailQ h st new).fail .shutdown h)))
+    (hb : st.quit = false → w.blockErr st.k = true → P (.fail ((stFailB h st new).fail .blockFail h)))
     (hc : st.quit = false → w.blockErr st.k = false → P (.cont (stFetched w h st new))) :
     P (fetchStep w h st new) := by
   rw [fetchStep_eq]
@@ -195,6 +195,12 @@ theorem failAll_ok (c : Chain) (ents : List Entry) (e : Err) (u : Nat) : OutOk c
   intro d hd
   simp only [failAll, List.mem_flatMap, List.mem_map] at hd
   obtain ⟨en, _, q, _, rfl⟩ := hd
+  simp only [delivOk]
+
+theorem failNew_ok (c : Chain) (new : List Req) (e : Err) (u : Nat) : OutOk c (failNew new e u) := by
+  intro d hd
+  simp only [failNew, List.mem_map] at hd
+  obtain ⟨q, _, rfl⟩ := hd
   simp only [delivOk]
 
 theorem joinReq_ok (c : Chain) (h : Nat) (r : Req) (hr : r.birth = h) :
@@ -322,8 +328,8 @@ theorem fetchStep_ok (w : World) (h : Nat) (st : St) (new : List Req) (hb : ∀ 
     (he : EntsOk w.chain h st.ents) (ho : OutOk w.chain st.out) :
     StepOk w.chain h (fetchStep w h st new) := by
   apply fetchStep_cases
-  · intro _; exact OutOk.append ho (failAll_ok _ _ _ _)
-  · intro _ _; exact OutOk.append ho (failAll_ok _ _ _ _)
+  · intro _; exact OutOk.append (OutOk.append ho (failNew_ok _ _ _ _)) (failAll_ok _ _ _ _)
+  · intro _ _; exact OutOk.append (OutOk.append ho (failNew_ok _ _ _ _)) (failAll_ok _ _ _ _)
   · intro _ _
     have := notifySpends_ok w.chain h _ (addNew_ok w.chain h new st.ents hb he)
     exact ⟨this.1, OutOk.append ho this.2⟩
